@@ -8,3 +8,4 @@ pub mod targets;
 pub mod stats;
 pub mod c06;
 pub mod c03;
+pub mod c17;
